@@ -232,6 +232,11 @@ TABLE["C12"] = [
       assume=["S6: <SplitWhitespace as Iterator>::next stubbed by an abstract token stream; <u32 as PokerCard>::from_index stubbed by token -> symbolic word (its real range is decided by c12_token)"],
       draws="n:u8, (r,s)*9 (r=13 is blank)"),
 ]
+TABLE["C12"] += [
+    H("c12_raw_two", tier="thorough", timeout=3000, functions=["<Two as TryFrom<&'static str>>::try_from", "Two::from_index", "core::str::split_whitespace (REAL)", "PokerCard::from_index"],
+      domain="every ASCII string of at most 5 bytes as the whole text (real splitter, no stubs)", bound="texts longer than 5 bytes are outside; unwind 8",
+      assume=["expected result computed by a hand-written ASCII tokenizer"], draws="bytes:u64 (little endian), len:u8"),
+]
 PROPERTY_META["C12"] = {
     "claim": "symbol tables for all scalars; token parser total and exact on all UTF-8 <= 8 bytes; render/parse round trip; hand parsers fail iff tokens run out and fill slots in token order; bit-set parser folds all tokens",
     "outside": "tokens > 8 bytes; whitespace splitting of raw text itself (core's split_whitespace is trusted, exercised concretely by the round-trip harness and natively in replay)",
@@ -285,7 +290,11 @@ TABLE["C01"] = [
     H(f"c01_paired_any_order_r{j:02d}", tier=f"seeded:p4:{j}:13", solver="kissat", timeout=2700, functions=EVAL,
       domain=f"five distinct cards with a repeated rank, ANY slot order, partition: rank of slot 0 is {j}", bound="whole partition; unwind 14", draws="(r,s)*5")
     for j in range(13)
-] + WIRING(sizes=("five",), validated=("five",))
+] + WIRING(sizes=("five",), validated=("five",)) + [
+    H("c01_five_history_distinct", tier="thorough", solver="kissat", timeout=4000, functions=EVAL + ["Five::hand_rank_value_validated", "Five::is_valid"],
+      domain="two hands of five distinct cards with five distinct ranks (flush or not), any slot orders: rank the first (both entry points), then the second",
+      bound="histories of length 2 on the table path of the REAL evaluator; unwind 14", draws="(r,s)*5, (r,s)*5"),
+]
 PROPERTY_META["C01"] = {
     "claim": "real evaluator value == S2 ordinal for every flush and every five-distinct-rank hand in every slot order, for every paired hand in descending order, "
              "and (quick: one of 13 partitions chosen by VERIF_SEED; thorough: all 13) for every paired hand in every slot order; folds invariant under adjacent swaps; "
@@ -306,6 +315,10 @@ TABLE["C04"] = [
 ] + [
     H(f"c04_unique_{n}", functions=[f"<{n.capitalize()} as HandValidator>::are_unique", "sort"], domain=WORDS + ", no slot 0xFFFFFFFF",
       bound="whole domain; unwind 9", timeout=1800, draws="a:u32*N") for n in ("six", "seven")
+] + [
+    H("c04_invalid_five_real", timeout=1500, functions=["Five::hand_rank_value_validated", "hand_rank_validated", "evaluate::five_cards", "Five::is_valid", "REAL evaluator behind it (nothing stubbed)"],
+      domain="every array of five arbitrary 32-bit words that is NOT a valid hand", bound="whole domain; unwind 23",
+      assume=["Six/Seven: the same claim is decided with the evaluator abstracted (c04_validated_six/seven, call counter); their native replay runs a nasty-word family on the real code"], draws="a:u32*5"),
 ] + WIRING()
 PROPERTY_META["C04"] = {
     "claim": "is_valid iff all slots are S1 cards and pairwise distinct, for ARBITRARY words in every slot, all six sizes; validated ranking (and evaluate::five_cards) returns 0 without reaching the evaluator "
@@ -323,12 +336,12 @@ TABLE["C05"] = [
       domain="five slots over " + CARDBLANK + ", at least one blank (53^5 - 52^5 ordered arrays)", bound="whole domain; unwind 14", draws="(r,s)*5, r=13 is blank"),
     H("c05_five_total", solver="kissat", timeout=1800, functions=EVAL, domain="five slots over " + CARDBLANK + " (all 53^5 ordered arrays)",
       bound="whole domain; unwind 14", draws="(r,s)*5"),
-    H("c05_six_logic_total", functions=["Six::hand_rank_value_and_hand", "five_from_permutation", "Five::sort", "HandRanker::hand_rank_value (default)"], domain=WORDS,
-      bound="whole input type; unwind 9", assume=["<Five as HandRanker>::hand_rank_value_and_hand replaced by an arbitrary total function (its own panic freedom on card-or-blank fives is c05_five_total)"],
-      draws="a:u32*6 (natively (r,s)*7)"),
-    H("c05_seven_logic_total", functions=["Seven::hand_rank_value_and_hand", "five_from_permutation", "Five::sort", "HandRanker::hand_rank_value (default)"], domain=WORDS,
-      bound="whole input type; unwind 23 (21 candidate rows)", assume=["<Five as HandRanker>::hand_rank_value_and_hand replaced by an arbitrary total function"],
-      draws="a:u32*7 (natively (r,s)*7)"),
+    H("c05_six_logic_total", functions=["Six::hand_rank_value_and_hand", "five_from_permutation", "Five::sort", "HandRanker::hand_rank_value (default)"], domain="six slots over " + CARDBLANK,
+      bound="whole domain; unwind 9", assume=["<Five as HandRanker>::hand_rank_value_and_hand replaced by an arbitrary total function (its own panic freedom on card-or-blank fives is c05_five_total)"],
+      draws="(r,s)*7 (first six used)"),
+    H("c05_seven_logic_total", functions=["Seven::hand_rank_value_and_hand", "five_from_permutation", "Five::sort", "HandRanker::hand_rank_value (default)"], domain="seven slots over " + CARDBLANK,
+      bound="whole domain; unwind 23 (21 candidate rows)", assume=["<Five as HandRanker>::hand_rank_value_and_hand replaced by an arbitrary total function"],
+      draws="(r,s)*7"),
     H("c05_blank_five_entry_points", tier="thorough", solver="kissat", timeout=1800, functions=EVAL + ["hand_rank_value", "hand_rank", "hand_rank_value_validated", "hand_rank_validated", "evaluate::five_cards", "Five::is_valid"],
       domain="four distinct real cards and one blank in any of the five slots", bound="whole sub-domain; unwind 14", draws="(r,s)*4, k:u8"),
     H("c05_six_total", tier="thorough", solver="kissat", timeout=1800, functions=["Six::hand_rank_value_and_hand", "five_from_permutation", "Five::sort"] + EVAL[:6] + EVAL[7:],
@@ -354,12 +367,19 @@ C02_ABS = [
       bound="whole domain; unwind 66", assume=S5NOTE, draws="(r,s)*7 (first six used), then T"),
 ]
 C02_REAL = [
-    H("c02_seven_royal_mask", tier="thorough", solver="kissat", timeout=3000, functions=["Seven::hand_rank_value_and_hand"] + EVAL, domain="REAL evaluator: royal flush of spades on any 5 of 7 slots (symbolic mask, 21 masks), 2c and 7d in the other two",
-      bound="whole family; unwind 23", draws="m:u8"),
     H("c02_six_royal_mask", tier="thorough", solver="kissat", timeout=1800, functions=["Six::hand_rank_value_and_hand"] + EVAL, domain="REAL evaluator: royal flush of spades on any 5 of 6 slots x any other card",
       bound="whole family; unwind 14", draws="m:u8, (r,s)"),
 ]
-TABLE["C02"] = C02_ABS + C02_REAL
+HISTNOTE = ["the ranking primitive of the hand size is an arbitrary function with two pre-drawn results (wiring stub): any state kept above it (memo, cache) is exposed; "
+            "natively the reference is the best five-card value over all subsets and all ordered pairs of hands from a small two-suit pool are run as well"]
+C02_HIST = [
+    H("c02_six_history", timeout=1500, functions=["Six::{hand_rank_value, hand_rank_value_and_hand, hand_rank_value_validated, hand_rank} called on one hand, then on another"],
+      domain="two six-card hands of distinct real cards (any overlap, any order): every entry point on the first, then every entry point on the second",
+      bound="histories of length 2 (a one-entry memo shows; deeper caches would need longer sequences); unwind 9", assume=HISTNOTE, draws="(r,s)*7, (r,s)*7, fv0, fv1:u16"),
+    H("c02_seven_history", timeout=1500, functions=["Seven::{hand_rank_value, hand_rank_value_and_hand, hand_rank_value_validated, hand_rank} called on one hand, then on another"],
+      domain="two seven-card hands of distinct real cards", bound="histories of length 2; unwind 9", assume=HISTNOTE, draws="(r,s)*7, (r,s)*7, fv0, fv1:u16"),
+]
+TABLE["C02"] = C02_ABS + C02_HIST + C02_REAL
 PROPERTY_META["C02"] = {
     "claim": "six/seven value == min over ALL five-card subsets (enumerated by bit masks, independent of the repository's row tables) of the five-card value, for every slot order, "
              "for every evaluator with the S5 facts; by C01 (real value = rule-derived ordinal) this is 'equals a direct rule-based evaluation'. Real-evaluator family: royal flush on every slot mask.",
